@@ -1,4 +1,4 @@
-"""Online moments kernels (C10, C19)."""
+"""Online moments kernels (C10, C06, C19): count, minimum and maximum are exact for every block sequence."""
 from pvc.contract import Arr, Contract, Int, LoopSpec, Real, RecArr
 
 K = "sigpyproc/core/kernels.py::"
@@ -7,18 +7,80 @@ MOM = {"count": ("int", None), "m1": ("real", "f4"), "m2": ("real", "f4"), "m3":
        "m4": ("real", "f4"), "min": ("real", "f4"), "max": ("real", "f4")}
 
 
+def minmax_clauses(n, chan, mn, mx, nch="len(moments)"):
+    """(min, max) of channel `chan` after the first n samples of the block: lower/upper bound of every sample seen and of
+    the carried value when continuing (startflag != 0), and attained by one of them - i.e. exactly
+    min(old if continuing, samples), without a recursive spec function."""
+    samp = f"array[t * {nch} + {chan}]"
+    return [
+        ("min bounds the block", f"forall(t, 0, {n}, {mn} <= {samp})"),
+        ("max bounds the block", f"forall(t, 0, {n}, {mx} >= {samp})"),
+        ("min continues", f"implies(startflag != 0, {mn} <= old(moments['min'][{chan}]))"),
+        ("max continues", f"implies(startflag != 0, {mx} >= old(moments['max'][{chan}]))"),
+        ("min attained", f"(startflag != 0 and {mn} == old(moments['min'][{chan}])) or "
+                         f"(startflag == 0 and {mn} == array[{chan}]) or exists(t, 0, {n}, {mn} == {samp})"),
+        ("max attained", f"(startflag != 0 and {mx} == old(moments['max'][{chan}])) or "
+                         f"(startflag == 0 and {mx} == array[{chan}]) or exists(t, 0, {n}, {mx} == {samp})"),
+    ]
+
+
 def register(reg):
     for name in ("compute_online_moments", "compute_online_moments_basic"):
-        c = Contract(K + name, props=["C10"],
+        c = Contract(K + name, props=["C10", "C06"],
                      params={"array": Arr("real", None, view=True), "moments": RecArr(dict(MOM)), "startflag": Int()},
+                     lets={"NB": "len(array) // len(moments)"},
                      requires=["len(moments) >= 1", "len(array) >= len(moments)",
                                "forall(c, 0, len(moments), moments['count'][c] >= 0)"],
                      modifies=["moments"],
                      # the scalar update is executed symbolically here (its own contract lives in contracts/moments.py)
                      inline_calls=[K + "update_moments", K + "update_moments_basic"])
         nonneg = "forall(c, 0, len(moments), moments['count'][c] >= 0)"
-        c.loops["0:ichan"] = LoopSpec([("counts", nonneg)])
-        c.loops["1:ichan"] = LoopSpec([("counts", nonneg)])
-        c.loops["2:isamp"] = LoopSpec([("counts", nonneg), ("count", "count >= 0")])
+        seeded = ("forall(c, {lo}, len(moments), moments['count'][c] == old(moments['count'][c]) and "
+                  "moments['min'][c] == (array[c] if startflag == 0 else old(moments['min'][c])) and "
+                  "moments['max'][c] == (array[c] if startflag == 0 else old(moments['max'][c])))")
+        def done(hi):
+            cl = " and ".join("(" + t + ")" for _, t in minmax_clauses("NB", "c", "moments['min'][c]", "moments['max'][c]"))
+            return f"forall(c, 0, {hi}, moments['count'][c] == old(moments['count'][c]) + NB and {cl})"
+        c.loops["0:ichan"] = LoopSpec([
+            ("counts", nonneg),
+            ("seeded so far", "forall(c, 0, ichan, moments['min'][c] == array[c] and moments['max'][c] == array[c])"),
+            ("rest untouched", "forall(c, ichan, len(moments), moments['min'][c] == old(moments['min'][c]) and "
+                               "moments['max'][c] == old(moments['max'][c]))"),
+            ("count untouched", "forall(c, 0, len(moments), moments['count'][c] == old(moments['count'][c]))")])
+        c.loops["1:ichan"] = LoopSpec([("counts", nonneg), ("done", done("ichan")), ("todo", seeded.format(lo="ichan"))])
+        c.loops["2:isamp"] = LoopSpec([("counts", nonneg), ("count", "count == old(moments['count'][ichan]) + isamp"),
+                                       ("done", done("ichan")), ("todo", seeded.format(lo="ichan"))]
+                                      + minmax_clauses("isamp", "ichan", "min_val", "max_val"))
         c.ensure("counts", nonneg)
+        c.ensure("count", "forall(c, 0, len(moments), moments['count'][c] == old(moments['count'][c]) + NB)")
+        for nm, t in minmax_clauses("NB", "c", "moments['min'][c]", "moments['max'][c]"):
+            c.ensure(nm, f"forall(c, 0, len(moments), {t})")
         reg.add(c)
+
+
+def register_push(reg):
+    """ChannelStats.push_data verified against the two kernels' contracts: the block's time index reaches the kernel as its
+    start flag (so only the first block seeds min/max) in BOTH modes, and the same accumulator is updated."""
+    from pvc.contract import Obj, Str
+    ST = "sigpyproc/core/stats.py::"
+    bag = Obj("ChannelStats", file="sigpyproc/core/stats.py", fields={"_moments": RecArr(dict(MOM))})
+    c = Contract(ST + "ChannelStats.push_data#body", props=["C10", "C06"],
+                 params={"self": bag, "array": Arr("real", None, view=True), "start_index": Int(), "mode": Str()},
+                 cases={"mode": ["basic", "full"]},
+                 lets={"NB": "len(array) // len(self._moments)"},
+                 requires=["len(self._moments) >= 1", "len(array) >= len(self._moments)",
+                           "forall(c, 0, len(self._moments), self._moments['count'][c] >= 0)"],
+                 modifies=["self._moments"])
+    fix = lambda t: t.replace("moments", "self._moments").replace("startflag", "start_index")  # noqa: E731
+    c.ensure("count", fix("forall(c, 0, len(moments), moments['count'][c] == old(moments['count'][c]) + NB)"))
+    for nm, t in minmax_clauses("NB", "c", "moments['min'][c]", "moments['max'][c]"):
+        c.ensure(nm + " (start flag is the block's time index)", fix(f"forall(c, 0, len(moments), {t})"))
+    reg.add(c)
+
+
+_r_km = register
+
+
+def register(reg):  # noqa: F811
+    _r_km(reg)
+    register_push(reg)
